@@ -350,16 +350,18 @@ impl StateCheck for C10 {
                 reports.push((name.to_string(), rep));
             }
             out.regime("cli_processes");
-            let split = |s: &str| -> (String, Vec<f64>) {
+            // numbers with the tolerance of their printed precision (one unit of the last printed digit)
+            let split = |s: &str| -> (String, Vec<(f64, f64)>) {
                 let mut skel = String::new();
-                let mut nums = vec![];
+                let mut nums: Vec<(f64, f64)> = vec![];
                 let mut cur = String::new();
                 for ch in s.chars() {
                     if ch.is_ascii_digit() || ch == '.' || (ch == '-' && cur.is_empty()) {
                         cur.push(ch);
                     } else {
                         if let Ok(x) = cur.parse::<f64>() {
-                            nums.push(x);
+                            let dec = cur.split('.').nth(1).map(|d| d.len()).unwrap_or(0) as i32;
+                            nums.push((x, 1.1 * 10f64.powi(-dec)));
                             skel.push('#');
                         } else {
                             skel.push_str(&cur);
@@ -374,8 +376,8 @@ impl StateCheck for C10 {
             for (name, r) in &reports[1..] {
                 out.compared += 1;
                 let (s1, n1) = split(r);
-                if s1 != s0 || n0.len() != n1.len() || n0.iter().zip(&n1).any(|(a, b)| (a - b).abs() > 0.011 + 1e-6 * a.abs()) {
-                    let diff = n0.iter().zip(&n1).find(|(a, b)| (*a - *b).abs() > 0.011).map(|(a, b)| format!("{a} vs {b}")).unwrap_or_else(|| "report layout differs".into());
+                if s1 != s0 || n0.len() != n1.len() || n0.iter().zip(&n1).any(|(a, b)| (a.0 - b.0).abs() > a.1 + 1e-6 * a.0.abs()) {
+                    let diff = n0.iter().zip(&n1).find(|(a, b)| (a.0 - b.0).abs() > a.1 + 1e-6 * a.0.abs()).map(|(a, b)| format!("{} vs {}", a.0, b.0)).unwrap_or_else(|| "report layout differs".into());
                     out.viol("same_results", &["process"], format!("another process ({name})"), diff, "the report of the first process");
                 }
             }
@@ -423,7 +425,7 @@ pub fn run(ctx: &Ctx) -> i32 {
     finish(
         ctx,
         &shared,
-        &FULL,
+        &FULL_CLI,
         Finish {
             level: "model_checking",
             rule: "every base file (FLOW, AUX/ENV systems, shipped) x {all line permutations (<= 4 lines; else reversal + 2 rotations), split of each line in two, injective renumberings of the ids into {0,1,2,12,-3}, id 0 written/omitted, 8 decorations (BOM, header, blank lines, comment lines, trailing comments, whitespace, CRLF, combination)} x repeated evaluation under successive recorded hash keys until every hooked iteration site with n <= 3 keys has been seen in all n! orders (cap per state); non-trivial = base with >= 2 lines".into(),
@@ -439,5 +441,5 @@ pub fn run(ctx: &Ctx) -> i32 {
 }
 
 pub fn replay(path: &str) -> i32 {
-    replay_file("C10", &FULL, path)
+    replay_file("C10", &FULL_CLI, path)
 }
